@@ -20,11 +20,20 @@ class CapturedPath:
     return self._compute_captured_path()[0]
 
   def _compute_captured_path(self):
-    path = []
-    prev_edge = False
-    for item in self.items:
-      path, prev_edge = self._push_item_on_se_path(path, prev_edge, item)
-    return path, prev_edge
+    if getattr(self, "_computing_captured_path", False):
+      raise gfapy.InconsistencyError(
+        "Captured path cannot be computed\n"+
+        "The group contains itself, directly or through other groups\n"+
+        "Line: {}".format(self))
+    self._computing_captured_path = True
+    try:
+      path = []
+      prev_edge = False
+      for item in self.items:
+        path, prev_edge = self._push_item_on_se_path(path, prev_edge, item)
+      return path, prev_edge
+    finally:
+      self._computing_captured_path = False
 
   def _push_item_on_se_path(self, path, prev_edge, item):
     if isinstance(item.line, str):
